@@ -86,7 +86,8 @@ def lr_candidates(c, quick, lx, gen):
     for start, part, newxta, alpha in ENTRIES:
         params = os.path.join(c.run_dir, "lr_%s.json" % start)
         big = part in ("S_XTA", "S_XTA_PROCESS", "S_SYSTEM", "S_INST", "property")
-        json.dump({"start": start, "alphabet": toks(alpha), "maxlen": (3 if big else 4) if quick else (4 if big else 5)}, open(params, "w"))
+        extra = int(os.environ.get("C01_EXTRA_DEPTH", "0"))      # exploration beyond the registered tiers (hunting runs; not used by MANIFEST commands)
+        json.dump({"start": start, "alphabet": toks(alpha), "maxlen": ((3 if big else 4) if quick else (4 if big else 5)) + extra}, open(params, "w"))
         r = vf.run_tlc("LRDepth", "LRDepth_all.cfg", c.run_dir, env={"LR_TABLES": os.path.join(gen, "lr_tables.json"), "LR_PARAMS": params}, timeout=3000, xmx="16g", keep_out=False)
         c.add_tlc("LRDepth_" + start, r, "every token string <= n at %s with error recovery" % start)
         prop = part == "property"
